@@ -7,12 +7,16 @@ package srvx
 
 import (
 	"context"
+	"crypto/ecdsa"
+	"crypto/elliptic"
 	"crypto/rand"
 	"crypto/rsa"
 	"crypto/x509"
+	"crypto/x509/pkix"
 	"fmt"
 	"io"
 	"log"
+	"math/big"
 	"net"
 	"strings"
 	"sync"
@@ -343,4 +347,19 @@ func (c *Chan) Call(ctx context.Context, req ua.Request, token *ua.NodeID, timeo
 		return nil
 	})
 	return out, err
+}
+
+// NonRSACert returns a self-signed certificate with an ECDSA key.
+func NonRSACert() []byte {
+	k, err := ecdsa.GenerateKey(elliptic.P256(), rand.Reader)
+	if err != nil {
+		return nil
+	}
+	tmpl := &x509.Certificate{SerialNumber: big.NewInt(7), Subject: pkix.Name{CommonName: "verif ecdsa"},
+		NotBefore: time.Now().Add(-time.Hour), NotAfter: time.Now().Add(24 * time.Hour)}
+	der, err := x509.CreateCertificate(rand.Reader, tmpl, tmpl, &k.PublicKey, k)
+	if err != nil {
+		return nil
+	}
+	return der
 }
